@@ -34,7 +34,7 @@ ASSUMPTIONS = [
     "at digest sizes 1 and 2 only the un-suffixed part of a fresh id is required to be deterministic (different contents collide)",
 ]
 TYPECHECK_OK = True  # every generated value conforms to its annotation: some shards run with RUNTIME_TYPE_CHECK on
-MUST_SEE = ["failing_duplicate", "remodelled_class_detach", "replace_without_changes", "id_determinism_checks_with_occupied_neighbours", 
+MUST_SEE = ["deep_3000_detaches", "failing_duplicate", "remodelled_class_detach", "replace_without_changes", "id_determinism_checks_with_occupied_neighbours", 
     "op_detach_stale_with_live_twin", "op_replace_fail", "drops", "suffix_ge_2", "detach_depth_ge2", "asobj_recreated",
     "asobj_reused", "digest1_histories", "dead_weakrefs_checked", "replace_on_stale", "id_determinism_checks", "replace_fail_after_registration",
 ]
@@ -481,6 +481,45 @@ def run_shard(ctx):
         collect()
         failing_duplicate_leg(ctx, U)
         collect()
+        if ctx.shard % 4 == 0:
+            deep_detach_leg(ctx, U)
+            collect()
+
+
+def deep_detach_leg(ctx, U):
+    """detach() is promised for every tree: a chain 3000 levels deep (built bottom-up, no recursion needed), detached
+    under the interpreter's default recursion limit; afterwards no node of it is found under its id"""
+    from pyoak.node import ASTNode
+
+    P = U.P
+    for how in ("detach", "detach_from_the_middle"):
+        n = U.cls[f"{P}Leaf"](v=424242)
+        chain = [n]
+        for _ in range(3000):
+            n = U.cls[f"{P}Un"](child=n)
+            chain.append(n)
+        start = n if how == "detach" else chain[1500]
+        below = chain[:1501] if how != "detach" else chain
+        above = chain[1501:] if how != "detach" else []
+        old = sys.getrecursionlimit()
+        sys.setrecursionlimit(1000)
+        try:
+            ctx.evaluations += 1
+            ctx.count("deep_3000_detaches")
+            try:
+                start.detach()
+                res = None
+            except RecursionError:
+                res = "RecursionError"
+        finally:
+            sys.setrecursionlimit(old)
+        still = sum(1 for x in below if ASTNode.get_any(x.id) is x)
+        lost = sum(1 for x in above if ASTNode.get_any(x.id) is not x)
+        if res is not None or still or lost:
+            ctx.violation("deep-tree-detach", f"detach() of a subtree 3000 levels deep: {res or 'returned'}, {still} of its nodes are still registered, {lost} nodes above it were unregistered", {"depth": 3000, "how": how})
+        for x in chain:
+            x.detach_self()
+        del chain, n, start, below, above
 
 
 def remodel_leg(ctx, U):
